@@ -124,7 +124,7 @@ def gcd_pairs(rng, tier, th):
             g = rand_nat(rng, rng.choice([1, 2, 5]))  or 3
             yield signs(rng, a * g, b * g)
     # explicit quotient sequences
-    for _ in range(400 if quick else 4000):
+    for _ in range(400 if quick else 6000):
         g = rng.choice([1, 1, 2, 3, B - 1, B, 1 << 63, rand_nat(rng, rng.choice([1, 2, 3])) or 1])
         qs = [rand_q(rng) for _ in range(rng.randrange(1, rng.choice([4, 12, 40])))]
         if qs[-1] == 1: qs[-1] = 2
@@ -142,7 +142,7 @@ def gcd_pairs(rng, tier, th):
     # size differences
     for n in list(range(1, 12)) + ([20, 40] if quick else [20, 40, 80, 150]):
         for d in (0, 1, 2, 3, 10) if quick else (0, 1, 2, 3, 7, 10, 50):
-            for _ in range(2 if quick else 5):
+            for _ in range(2 if quick else 6):
                 a, b = sized_pair(rng, n, d)
                 yield signs(rng, a, b)
                 yield signs(rng, b, a)
@@ -221,7 +221,7 @@ def rand_ulong(rng):
 def hgcd2_inputs(rng, tier):
     quick = tier == "quick"
     H = 1 << 63
-    for _ in range(800 if quick else 8000):
+    for _ in range(800 if quick else 16000):
         k = rng.randrange(12)
         if k == 0: ah, al, bh, bl = [rng.getrandbits(64) for _ in range(4)]
         elif k == 1: ah, al, bh, bl = rng.getrandbits(64) | H, rng.getrandbits(64), rng.getrandbits(64) | H, rng.getrandbits(64)
@@ -366,7 +366,7 @@ def gen_ops(rng, tier, ctx=None):
         for b in range(3, 40, 2):
             yield "mpn_jacobi_base %x %x %x" % (a, b, (a ^ b) & 2)
     # ---------- mpn_jacobi_2 directed: every entry/exit of the two-limb loops
-    for _ in range(2500 if quick else 25000):
+    for _ in range(2500 if quick else 30000):
         k = rng.randrange(10)
         al, ah, bl, bh = rand_limb(rng), rand_limb(rng), rand_limb(rng) | 1, rand_limb(rng)
         if k == 0: al = 0
